@@ -9,13 +9,13 @@ HERE = os.path.dirname(os.path.dirname(os.path.abspath(__file__)))
 PBT = "property-based testing (proptest as a library, fixed seed, shrinking to a JSON replay)"
 CHECKS = {
   "C01": ("exploration", PBT + " of generated configurations x derived targets against an independent routing model; declaration-order metamorphic relation",
-          "Generated logger trees (descendants, skipped levels, textual-prefix siblings, leading '::', additive flags, repeated attachments) with targets derived from each tree are logged through log4rs::Logger; the multiset of deliveries must equal a component-wise reference model, and the same configuration in a permuted declaration order must deliver identically; lists reach the builders through a mix of singular and bulk calls, and some cases start after caught appender panics on the same thread. Held on N generated cases, no absence proof.",
+          "Generated logger trees (descendants, skipped levels, textual-prefix siblings, leading '::', additive flags, repeated attachments) with targets derived from each tree are logged through log4rs::Logger; the multiset of deliveries must equal a component-wise reference model, and the same configuration in a permuted declaration order must deliver identically; lists reach the builders through a mix of singular and bulk calls, some cases start after caught appender panics on the same thread, probe records carry a configured logger's name as module path, the root level may be set through root_mut() after build, and an appender logs a nested record from inside append. Held on N generated cases, no absence proof.",
           "Trusts the harness model route() (written from the statement) and harness capture appenders.", "DESIGN.md §2 C01"),
   "C02": ("exploration", PBT + " of reconfiguration histories, one child process per history (global log facade), oracle = routing model + max-level rule",
           "Histories of 1-8 configurations whose most verbose level is steered up and down (held by root, leaf or deep logger) are installed through the three initialisers and Handle::set_config in a dedicated process; after every step log::max_level(), Logger::max_log_level(), enabled() on a target x level grid and log! macro deliveries are compared with the model; an appender of the outgoing configuration logs through the macros while set_config tears it down, and that record must reach what the incoming configuration prescribes.",
           "Global log facade without static max-level features; harness model.", "DESIGN.md §2 C02"),
   "C03": ("exploration", PBT + " of filter chains plus exhaustive sweeps (all chains <= 4, threshold truth table) against a per-appender chain model",
-          "1-4 appenders with chains of scripted Accept/Neutral/Reject filters and real ThresholdFilters, scripted appender failures, generated record levels; consult log, delivery log and error-handler log must equal the model per appender independently; filters are attached through a mix of filter()/filters(), and in some cases the error handler of another logger panicked earlier on the thread. All 121 chains of length <= 4 x failing/healthy x position and the 6x5 threshold table are enumerated completely.",
+          "1-4 appenders with chains of scripted Accept/Neutral/Reject filters and real ThresholdFilters, scripted appender failures, generated record levels; consult log, delivery log and error-handler log must equal the model per appender independently; filters are attached through a mix of filter()/filters(), chains may hold the library's ThresholdFilter unwrapped, all failing appenders may fail with the very same std::io::Error, and in some cases the error handler of another logger panicked earlier on the thread. All 121 chains of length <= 4 x failing/healthy x position and the 6x5 threshold table are enumerated completely.",
           "Filters/appenders are harness implementations observing calls (real ThresholdFilter wrapped).", "DESIGN.md §2 C03"),
   "C04": ("exploration", PBT + " with amplified thread schedules (parking inside the critical section, reader thread), oracle = exact file content / whole-record stream",
           "Pre-existing content x open mode x pattern or multi-chunk encoder x single-threaded appends checked through a fresh handle after every call x concurrent phases of 2-8 threads in which designated records park between two chunks inside the appender's critical section while a reader samples the file, optionally after an append that unwound out of the appender (panicking Display argument), after a message argument that logged through another file appender while being formatted, and after another file appender failed in the middle of a record; the file must be exactly pre-existing ++ acknowledged records, whole, per-thread ordered.",
@@ -24,7 +24,7 @@ CHECKS = {
           "Histories over size/on-start-up/time (guarded clock)/user-defined pre- and post-processing triggers and delete/fixed-window rollers (plain, gz, zst, directory patterns), both open modes, optionally a user-defined roller that fails on scripted calls, foreground and background-rotation builds; after every operation every retained file must parse into whole self-delimiting records and archives oldest-to-newest plus the active file must be a gap-free suffix of the acknowledged stream, records disappearing only from a full window; histories may contain appends that unwind out of the appender (panicking Display argument); part handover: an old and a new appender instance on one path write alternately and the file must be exactly all acknowledged records in order.",
           "Hook H1 (clock). Bursts are real threads (scheduler not controlled).", "DESIGN.md §3 C05"),
   "C06": ("exploration", PBT + " of append histories with sizes chosen relative to the limit; observing Policy wrapper; oracle = exact size model",
-          "Limits incl. 0, pre-existing files around the limit, both open modes, restarts, multi-byte payloads, multi-chunk encoder: at every policy consultation len_estimate == on-disk size == model size, rotation iff size > N, archive content == rolled content; the configured path may be a symbolic link; part contended: 2-4 writer threads, same accounting at every consultation.",
+          "Limits incl. 0, pre-existing files around the limit, both open modes, restarts, multi-byte payloads, multi-chunk encoder: at every policy consultation len_estimate == on-disk size == model size, rotation iff size > N, archive content == rolled content; the configured path may be a symbolic link; parts: contended (2-4 writer threads), long (70 000 appends through one open file), pre-processing (user-defined pre-processing policy consulted right after failed rolls) - same accounting at every consultation.",
           "Foreground rotation build.", "DESIGN.md §3 C06"),
   "C07": ("exploration", PBT + " of roller configurations x initial directory states x roll sequences; oracle = full recursive snapshot model",
           "Bases incl. u32::MAX-count+1, counts 0-6, 14 patterns (index in name/directory/twice, $ENV incl. a value containing '{}', gz/zst), initial windows with gaps/outside-window archives/bystanders, 1-10 rolls of files up to 400 kB incompressible, rolled-file names that are not valid UTF-8, temp-file look-alikes in the background build, archive directories cleared away between rolls, one roller through 400 successive rolls, rolled file optionally on another filesystem (copy fallback), foreground and background-rotation builds; exact shift for gap-free windows, charitable ordered-list relation with gaps, nothing outside the managed names touched.",
@@ -39,13 +39,13 @@ CHECKS = {
           "Single-formatter cases assert on the raw bytes valid UTF-8, <= M and >= m characters and equality with the law; nested cases (spec probability 0.9, depth <= 4) compare with the compositional reference, including the exact sequence of text pieces and style requests.",
           "m <= M (statement's domain).", "DESIGN.md §4 C10"),
   "C11": ("exploration", "exhaustive enumeration of all strings over the 14 syntax symbols up to a length bound and of all strftime directives + " + PBT + " of valid-prefix/breaker/suffix and token soup + coverage-guided fuzzing (thorough), under both build profiles; oracle = catch_unwind + differential against a reference parser of the documented grammar (well-formed => reference rendering, malformed => error marker after the rendered prefix)",
-          "No construction or encoding of any enumerated or generated string may unwind; every string is classified by a reference parser written from the documentation: well-formed strings must render exactly their meaning (no false error), malformed ones must show {ERROR: (or return Err) after the rendering of their valid top-level prefix; the same for a generated valid prefix followed by a known breaker.",
+          "No construction or encoding of any enumerated or generated string may unwind; every string is classified by a reference parser written from the documentation: well-formed strings must render exactly their meaning (no false error), malformed ones must show {ERROR: (or return Err) after the rendering of their valid top-level prefix; the same for a generated valid prefix followed by a known breaker (50 of them, incl. Unicode-numeric width characters and errors inside date arguments); part thread-exit: encoding from a thread-local destructor in a child process.",
           "Widths above 4096 are constructed but not encoded (statement's sanity bound).", "DESIGN.md §4 C11"),
   "C12": ("exploration", PBT + " of records with adversarial strings; oracle = independent strict RFC 8259 parser + field-by-field round trip",
-          "One line, no raw control byte, strict parse (own parser, cross-checked with serde_json), every documented field equal to the record (fields with uninterrupted plain runs of up to 20 kB), absent optional fields omitted, no undocumented key; the encoder is built by new(), Default and the kind: json deserializer; sinks with short and interrupted writes.",
+          "One line, no raw control byte, strict parse (own parser, cross-checked with serde_json), every documented field equal to the record (fields with uninterrupted plain runs of up to 20 kB), absent optional fields omitted, no undocumented key; the encoder is built by new(), Default and the kind: json deserializer; sinks with short and interrupted writes; messages delivered one character at a time; a preceding record on the thread with shifted MDC boundaries.",
           "Control character = U+0000-U+001F.", "DESIGN.md §4 C12"),
   "C13": ("exploration", PBT + " of builder inputs + exhaustive sweep of all 3280 names over {a,b,:} up to length 7; oracle = reference validity rule and valid-part model",
-          "build() Ok iff no offence; every error names a real offence and every offending item is covered; build_lossy equals the valid part; returned configs are installed and probed under catch_unwind against route(); appender names include the empty string and a blank.",
+          "build() Ok iff no offence; every error names a real offence and every offending item is covered; build_lossy equals the valid part; returned configs are installed and probed under catch_unwind against route(); appender names include the empty string and a blank; all public builder routes (builder()/default(), singular/bulk); inputs with 400 and 1000+ offending items.",
           "Colon runs of even length >= 4 are unsettled by the statement (either outcome accepted).", "DESIGN.md §5 C13"),
   "C14": ("exploration", PBT + " of logical configurations rendered by three hand-written emitters, differential against a programmatic twin; mutation-based negative oracle by layer",
           "Each logical configuration is rendered to YAML, JSON and TOML (generated key order, defaultable keys present/omitted), loaded through both paths, compared through Config accessors and through directory snapshots after probe records with a twin built by the public builders (ten clock-free patterns incl. the empty one and line breaks after {n}); the strict path is the library's create_raw_config; mutated documents (unknown keys carry a number, null, empty string, empty list or empty map) must be rejected at the right layer, lossy loading must keep everything else working, degenerate numerics never panic.",
@@ -60,13 +60,13 @@ CHECKS = {
           "Rolled iff size at start-up >= min_size, archive == pre-existing content, first record opens the fresh file, no further archive ever appears - also for a simultaneous start of 2-8 threads, after a start-up roll that failed before or after moving the file (not made up for later), with the trigger built by the onstartup deserializer without min_size, and over lifetimes of 70 000 records.",
           "Scheduler not controlled (barrier amplification).", "DESIGN.md §3 C17"),
   "C18": ("exploration", "exhaustive 432-cell environment x terminal matrix in child processes on real ptys + exhaustive 243-style sweep + " + PBT + " of style pairs/interleavings; oracle = statement's cascade and an SGR interpreter",
-          "Every cell runs in its own child with generated highlight patterns; target/non-target stream content, tty_only silence, presence of escapes per the colour cascade, well-formedness and resets are checked, with colour on the stream must carry exactly one sequence per style request of the pattern in its place; argument-free literal messages (4-9 kB, multi-line, multi-byte, empty) through {m} on both streams; every style must map any prior terminal state to exactly the requested attributes.",
+          "Every cell runs in its own child with generated highlight patterns; target/non-target stream content, tty_only silence, presence of escapes per the colour cascade, well-formedness and resets are checked, with colour on the stream must carry exactly one sequence per style request of the pattern in its place; argument-free literal messages (4-9 kB, multi-line, multi-byte, empty) through {m} on both streams; builder call order varied; an encoder that refuses one record in mid-cell; every style must map any prior terminal state to exactly the requested attributes.",
           "ptys via libc::openpty (absent => exit 2). NO_COLOR=0 / CLICOLOR_FORCE=0 accept both readings.", "DESIGN.md §6 C18"),
   "C19": ("exploration", PBT + " of token-built paths and variable pools; oracle = single-pass reference expander; end-to-end through the three public builders and through a YAML configuration file",
-          "Bulk comparison through the guarded hook and creation of exactly the expected file by FileAppender, RollingFileAppender (both open modes; truncate mode must empty the file at the expanded location) and FixedWindowRoller.",
+          "Bulk comparison through the guarded hook and creation of exactly the expected file by FileAppender, RollingFileAppender (both open modes; truncate mode must empty the file at the expanded location), the same two through a YAML configuration file, and FixedWindowRoller (index in the file name, and in a directory below the expanded path over four rolls); variable names up to 1032 characters.",
           "Hook H5. Values are '$'-free.", "DESIGN.md §6 C19"),
   "C20": ("exploration", PBT + " of literals (boundary-centred numbers x decorations x units x whitespace x seven carriers); oracle = u128 reference with accept-either classes",
-          "Exact value, mandatory rejection (including literals without any digits), or error-or-exact where the statement is silent; never a panic, never a wrapped value.",
+          "Exact value, mandatory rejection (including literals without any digits and units followed by further words), or error-or-exact where the statement is silent; never a panic, never a wrapped value.",
           "TOML integers above i64::MAX are a carrier limit (unsettled).", "DESIGN.md §6 C20"),
 }
 
